@@ -272,14 +272,23 @@ func runC12(w *World, r *Report) {
 				case hasKeyLike:
 					// the format argument must be a '/'-terminated prefix
 					okPrefix := false
+					withID := ""
 					if c, isCall := in.(*ssa.Call); isCall && callSym(c.Common()).name == "Sprintf" {
 						for _, v := range backSlice(c.Call.Args[1], SliceOpts{MaxDepth: 8}) {
 							if cc, isC2 := v.(*ssa.Call); isC2 {
 								if f, isKF := keyFns[callSym(cc.Common()).name]; isKF && endsWithSlash(f) {
 									okPrefix = true
+									// a LIKE pattern is made of the root path only: an id inside it is matched as a pattern
+									// ('_' and '%' are wildcards), ids are compared with `= ?`
+									if len(f.Params) > 1 {
+										withID = callSym(cc.Common()).name
+									}
 								}
 							}
 						}
+					}
+					if withID != "" {
+						r.Fail("C12-R2", cons+" | pattern holds an id", in.Pos(), "the LIKE pattern is built by "+withID+", which puts a task id into the pattern: '_' and '%' inside an id are wildcards, so the statement also reads / deletes the records of other tasks (job_1 matches jobA1); ids are to be matched with `= ?`")
 					}
 					r.Check(okPrefix, "C12-R2", cons, in.Pos(), "LIKE on a '/'-terminated prefix function", "the LIKE prefix is not '/'-terminated (root 'cdc' also reads the records of root 'cdc2')")
 				default:
